@@ -150,7 +150,8 @@ def gen_history(rng, case, nsolve=None):
         if i > 0 or rng.random() < 0.5:
             r = rng.random()
             if r < 0.25:
-                ops.append(["clock", rng.choice([1, 2, T - 1, T, T + 1, T + case["extra"], 2 * T + 7, 1000]), rng.choice(["set", "reset", "tensor"])])
+                ops.append(["clock", rng.choice([1, 2, T - 1, T, T + 1, T + case["extra"], 2 * T + 7, 1000, -1, -T - 2, 2 ** 24 + 1, 2 ** 24 + 3,
+                                                 1700000000, 2 ** 53 + 1]), rng.choice(["set", "reset", "tensor"])])
             elif r < 0.4:
                 ops.append(["fwd", rng.randint(1, 3)])
             elif r < 0.55:
@@ -173,7 +174,7 @@ def gen_history(rng, case, nsolve=None):
         opts = {"xview": rng.choice(XVIEWS), "uview": rng.choice(UVIEWS), "prev_obj": rng.random() < 0.5,
                 "style": rng.choice(STYLES), "grad": rng.choice(GRADS)}
         if lti and rng.random() < 0.4:
-            opts["dt"] = rng.choice([1, 2, 0.5, 0.01, "tensor:2.0"])
+            opts["dt"] = rng.choice([1, 2, 0.5, 0.01, "tensor:2.0", -1, 0, -0.5])
         ops.append(["solve", rng.choice(NOMS) if i > 0 else rng.choice(NOMS[:-1]), opts])
     return ops
 
@@ -198,8 +199,23 @@ def gen_lqr_case(rng, big=True, small=None, mpc=False):
                 x0scale=rng.choice([0, 1e-3, 1, 1, 10, 1e4]), qshape=rng.choice(["full", "full", "q3", "p2", "q3p2"]),
                 qexpand=rng.random() < 0.5, mixed=(Bn > 1 and rng.random() < 0.35),
                 extra=rng.randint(0, 4), c2=rng.random() < 0.3, dt=1, data_seed=rng.randrange(1 << 30))
-    if rng.random() < 0.08 and dtype == "float64":
+    r = rng.random()
+    if r < 0.08 and dtype == "float64":
         case["qstyle"] = "psd"
+    elif r < 0.13:
+        case["qstyle"] = "eye"                    # exact ties: equal eigenvalues
+    elif r < 0.18 and dtype == "float64":
+        case["qstyle"] = "psd0"                   # exact ties: state block exactly zero
+    if rng.random() < 0.25:
+        case["signpat"] = rng.choice(["nonneg", "nonpos", "nonpos0"])
+    case["dup"] = Bn > 1 and rng.random() < 0.12
+    if case["dup"]:
+        case["mixed"] = False
+    if case["sys"] == "lti" and rng.random() < 0.3:
+        case["subclass"] = rng.choice(["MyLTI", "ShiftLTI"])       # user classes derived from the shipped ones
+    if dtype == "float32" and rng.random() < 0.5:
+        case["defdt"] = "float64"                 # process-wide default dtype differs from the operands'
+    case["tail"] = rng.random() < 0.3
     if case["sys"] == "ltvc":
         case["c1"] = "rand"
     if case["sys"] in ("lti", "lti_shared") and rng.random() < 0.4:
@@ -211,6 +227,9 @@ def gen_lqr_case(rng, big=True, small=None, mpc=False):
         case["pscale"], case["x0scale"], case["cscale"] = min(case["pscale"], 100), min(case["x0scale"], 10), min(case["cscale"], 10)
     case["ops"] = gen_history(rng, case)
     return case
+
+
+T_CLK = 7
 
 
 def corpus():
@@ -278,6 +297,43 @@ def corpus():
                     c["light"] = True
                     out.append(c)
                     k += 1
+    # LARGE sizes around 2^k (batch and horizon), split-consistency: item vs batch (first / middle / LAST), tail vs full
+    for sh, sysk in (((17, 3, 2, 1), "lti"), ((33, 2, 1, 2), "ltv"), ((65, 2, 2, 2), "lti_shared"), ((64, 1, 3, 1), "ltvc"),
+                     ((2, 31, 2, 1), "lti"), ((1, 33, 2, 2), "ltv"), ((2, 64, 1, 1), "ltvc"), ((1, 65, 2, 1), "lti")):
+        c = gen_lqr_case(rng, small=sh)
+        c.update(sys=sysk, dtype="float64", c1="rand", mixed=False, dup=False, condQ=10, qscale=1, pscale=1, x0scale=1, cscale=1, bscale=1,
+                 rho=0.9 if sh[1] > 8 else 1.05, astyle="rand", bstyle="full", dt=1, tail=True, extra=1, qstyle=None, signpat=None,
+                 subclass=None, defdt=None)
+        c["ops"] = [["solve", "none", {}], ["clock", 2 ** 24 + 1, "set"], ["solve", ["rand", 1.0, 1], {"style": "kw"}]]
+        out.append(c)
+    # EXACT TIES: equal eigenvalues, exactly singular state block, x_init = p = 0 exactly, identical batch items, n_state = n_ctrl
+    for k2, (qs, x0s, ps, dup) in enumerate((("eye", 1, 1, False), ("psd0", 1, 1, False), ("eye", 0, 0, True), (None, 0, 1, True),
+                                             ("psd0", 0, 0, False), (None, 1, 0, True))):
+        c = gen_lqr_case(rng, small=(3, 4, 2, 2))
+        c.update(sys=("lti", "ltv", "ltvc")[k2 % 3], dtype="float64", c1="rand" if k2 % 2 else "none", mixed=False, dup=dup, condQ=10, qscale=1,
+                 pscale=ps, x0scale=x0s, cscale=1, bscale=1, rho=0.9, astyle="rand", bstyle="full", dt=1, tail=True, qstyle=qs, signpat=None,
+                 subclass=None, defdt=None)
+        if c["sys"] == "ltvc":
+            c["c1"] = "rand"
+        c["ops"] = [["solve", "zeros", {}], ["solve", ["rand", 1.0, 1], {"grad": "requires_grad"}], ["solve", "prev", {"prev_obj": True}]]
+        out.append(c)
+    # SIGN patterns of p, x_init, c1, u_traj (non-negative / non-positive / non-positive with exact zeros), sign of dt and of the clock
+    for k2, sp in enumerate(("nonneg", "nonpos", "nonpos0")):
+        c = gen_lqr_case(rng, small=(2, 5, 3, 2))
+        c.update(sys=("lti", "ltv", "lti_shared")[k2], dtype="float64", c1="rand", mixed=False, dup=False, condQ=10, qscale=1, pscale=1, x0scale=1,
+                 cscale=1, bscale=1, rho=0.9, astyle="rand", bstyle="full", dt=1, tail=False, qstyle=None, signpat=sp, subclass=None, defdt=None)
+        c["ops"] = [["clock", -3, "set"], ["solve", "none", {"dt": -1 if k2 != 1 else None}], ["clock", -T_CLK, "reset"],
+                    ["solve", ["rand", 1.0, 1], {"dt": 0 if k2 != 1 else None}], ["solve", "zeros", {}]]
+        out.append(c)
+    # USER SUBCLASSES of LTI / LQR (own state_transition, own c1) and default dtype x operand dtype
+    for k2, (sub, dty, dd) in enumerate((("MyLTI", "float64", None), ("ShiftLTI", "float64", None), ("ShiftLTI", "float32", "float64"),
+                                         (None, "float32", "float64"), ("MyLTI", "float32", "float64"))):
+        c = gen_lqr_case(rng, small=(2, 4, 2, 2))
+        c.update(sys="lti", dtype=dty, c1="rand", mixed=False, dup=False, condQ=10, qscale=1, pscale=1, x0scale=1, cscale=1, bscale=1, rho=0.9,
+                 astyle="rand", bstyle="full", dt=1, tail=True, qstyle=None, signpat=None, subclass=sub, defdt=dd)
+        c["ops"] = [["solve", "none", {}], ["mutate", -1.0, 2.0, 0.75], ["solve", ["rand", 1.0, 1], {"style": "kw"}], ["copy", "deepcopy"],
+                    ["solve", "zeros", {"grad": "no_grad"}]]
+        out.append(c)
     # per-call dt on LTI systems
     c = gen_lqr_case(rng, small=(2, 5, 2, 2))
     c.update(sys="lti", dtype="float64", dt=1, mixed=False)
@@ -285,6 +341,19 @@ def corpus():
                 ["solve", "zeros", {"dt": "tensor:2.0", "style": "kw"}]]
     out.append(c)
     return out
+
+
+def gen_big_case(rng):
+    """LARGE batch / horizon around 2^k (within the time budget), small dimensions, with the split oracles"""
+    if rng.random() < 0.5:
+        sh = (rng.choice([15, 16, 17, 31, 32, 33, 63, 64, 65, 127, 128, 129]), rng.randint(1, 3), rng.randint(1, 2), rng.randint(1, 2))
+    else:
+        sh = (rng.randint(1, 2), rng.choice([31, 32, 33, 47, 63, 64, 65]), rng.randint(1, 2), rng.randint(1, 2))
+    c = gen_lqr_case(rng, small=sh)
+    c.update(dtype="float64", mixed=False, dup=False, condQ=rng.choice([1, 10, 1e3]), qscale=1, rho=rng.choice([0.3, 0.9, 1.0]) if sh[1] > 8 else c["rho"],
+             tail=True, defdt=None, extra=rng.randint(0, 2))
+    c["ops"] = [["solve", rng.choice(NOMS[:-1]), {}], ["clock", rng.choice([3, 2 ** 24 + 1, -2]), "set"], ["solve", "prev", {"prev_obj": True}]]
+    return c
 
 
 def gen_mpc_linear_case(rng, big=True):
@@ -328,6 +397,9 @@ def mpc_variants(rng, case):
     if rng.random() < 0.15:
         case.update(default_stepper=True, steps=10, patience=5, decreasing=1e-3, tol=1e-5, shared_stepper=False)
     case["verbose"] = rng.random() < 0.25
+    if rng.random() < 0.2:
+        case.update(user_stepper=rng.choice(["FixedSteps", "DuckStepper"]), user_k=rng.choice([1, 2, 3, 5]), default_stepper=False, shared_stepper=False)
+    case["subclass_mpc"] = rng.random() < 0.3
     case["events"] = [rng.choice([[], [], ["fail"], ["deepcopy"], ["fail", "deepcopy"]]) for _ in range(3)]
 
 
@@ -346,6 +418,19 @@ def mpc_corpus():
     c.update(sys="lti", default_stepper=True, steps=10, patience=5, decreasing=1e-3, tol=1e-5, shared_stepper=False, calls=2, verbose=False,
              events=[[], ["deepcopy"], []], uinit="none")
     out.append(c)
+    # USER steppers (derived from ReduceToBason / duck-typed), MPC subclass, system subclass
+    for k2, (us, kk, sub) in enumerate((("FixedSteps", 1, None), ("FixedSteps", 4, "ShiftLTI"), ("DuckStepper", 3, "MyLTI"), ("DuckStepper", 1, None))):
+        c = gen_mpc_linear_case(rng)
+        c.update(sys="lti", user_stepper=us, user_k=kk, subclass_mpc=True, subclass=sub, default_stepper=False, shared_stepper=False, calls=2, verbose=False,
+                 events=[[], ["deepcopy"], []], uinit=["rand", 5.0, 1], c1="rand", signpat=None, qstyle=None, dup=False, defdt=None)
+        out.append(c)
+    # EXACT TIES: the all-zero problem (every iteration has cost exactly 0: `cost < best` never true, `loss < tol` only by the sign of tol)
+    for tol in (1e-5, -1e9, 0.0):
+        c = gen_mpc_linear_case(rng)
+        c.update(sys="lti", x0scale=0, pscale=0, c1="none", uinit="none", steps=4, patience=2, decreasing=1e-3, tol=tol, default_stepper=False,
+                 shared_stepper=False, calls=2, verbose=False, events=[[], [], []], user_stepper=None, subclass_mpc=False, signpat=None, qstyle="eye",
+                 subclass=None, dup=False, defdt=None)
+        out.append(c)
     # SPECIFIC SIZES for MPC (single batch): horizon, n_state, n_ctrl in {1,2,3}
     k = 0
     for T in (1, 2, 3):
@@ -353,7 +438,8 @@ def mpc_corpus():
             for nc in (1, 2, 3):
                 c = gen_mpc_linear_case(rng)
                 c.update(T=T, ns=ns, nc=nc, sys=("lti", "ltv", "ltvc")[k % 3], c1="rand", rho=0.9, condQ=10, qscale=1, steps=3, patience=5, tol=-1e9,
-                         decreasing=1e-3, shared_stepper=False, default_stepper=False, verbose=False, calls=2, events=[[], [], []], extra=1)
+                         decreasing=1e-3, shared_stepper=False, default_stepper=False, verbose=False, calls=2, events=[[], [], []], extra=1,
+                         user_stepper=None, subclass_mpc=k % 2 == 0)
                 out.append(c)
                 k += 1
     for steps, pat, shared, amp, phi, T in ((1, 1, False, 0.3, 1.0, 3), (3, 2, True, 1.0, 2.0, 4), (8, 5, False, 0.2, 0.5, 5), (12, 3, True, 0.05, 1.0, 2),
@@ -392,7 +478,11 @@ def check_solution(ctx: Ctx, case, prob, refs, x, u, cost, tag, ubar=None, T=Non
         return False
     want_dt = getattr(torch, case["dtype"])
     if x.dtype != want_dt or u.dtype != want_dt or cost.dtype != want_dt:
-        ctx.fail(case, f"dtype: {tag}: returned dtypes {x.dtype}, {u.dtype}, {cost.dtype} for {want_dt} inputs")
+        ctx.fail(case, f"dtype: {tag}: returned dtypes {x.dtype}, {u.dtype}, {cost.dtype} for {want_dt} inputs "
+                       f"(default dtype {torch.get_default_dtype()})")
+        return False
+    if any(t.device.type != "cpu" or type(t) is not torch.Tensor for t in (x, u, cost)):
+        ctx.fail(case, f"metadata: {tag}: returned {[(type(t).__name__, str(t.device)) for t in (x, u, cost)]} for plain cpu tensors")
         return False
     if tuple(x.shape) != (Bn, T + 1, ns) or tuple(u.shape) != (Bn, T, nc) or tuple(cost.shape) != (Bn,):
         ctx.fail(case, f"shape: {tag}: returned shapes x{tuple(x.shape)} u{tuple(u.shape)} cost{tuple(cost.shape)}")
@@ -555,7 +645,60 @@ def solve_opts(op):
     return o
 
 
+def tail_check(ctx: Ctx, case, prob, refs, first, tl, dt_call, tag):
+    """solve the tail problem (steps t … T-1, time-shifted system tables, costs Q[t:], p[t:]) from the RETURNED state x_t with
+    fresh objects: it must be optimal for the tail problem and reproduce the returned inputs u[t:]"""
+    Bn, T = case["B"], case["T"]
+    dt_t = getattr(torch, case["dtype"])
+    eps = eps_of(case)
+    ok = True
+    cuts = sorted({1, T // 2, T - 1} | ({32} if T > 33 else set()))
+    for tc in [t for t in cuts if 1 <= t < T]:
+        ct = dict(case, T=T - tc, qshape="full", mixed=False, qexpand=False)
+        pt = dict(prob)
+        if prob["tv"]:
+            for key in ("A", "B", "c"):
+                pt[key] = prob[key][:, tc:].copy()
+            pt["L"] = prob["L"] - tc
+        pt["Q"], pt["p"] = prob["Q"][:, tc:].copy(), prob["p"][:, tc:].copy()
+        pt["x0"] = first[0][:, tc].copy()
+        st = U.make_system(ct, pt)
+        xt_, ut_, ct_ = U.make_lqr(ct, pt, st)(torch.tensor(pt["x0"], dtype=dt_t), dt_call)
+        rt = [U.make_ref(pt, b, T - tc) for b in range(Bn)]
+        ok &= check_solution(ctx, dict(case, focus=["tail", tc]), pt, rt, xt_, ut_, ct_, f"{tag}: tail problem from the returned x[{tc}]", T=T - tc)
+        for b in sample_items(Bn):
+            shift = np.abs(rt[b].u - refs[b].u[tc:])          # exact effect of x_t deviating from the exact optimum's x_t
+            allowed = C_TOL * eps * (rt[b].tols(None, eps)[0] + tl[b][0][tc:]) + shift
+            du = np.abs(ut_[b].detach().double().numpy() - first[1][b][tc:])
+            if (du > allowed + 1e-300).any():
+                ctx.fail(dict(case, focus=["tail", tc]), f"split: {tag}: the inputs u[{tc}:] differ from a fresh solve of the tail problem from the "
+                                                         f"returned x[{tc}] by {du.max():.3e} (item {b})")
+                ok = False
+        ctx.count("lqr.tail-split")
+    return ok
+
+
 def run_lqr_case(ctx: Ctx, case, lines, metas):
+    """`_run_lqr_case` under the process-wide default dtype the case asks for (PROCESS-WIDE SETTINGS: constants created
+    without dtype= promote silently; values AND metadata of the results must not depend on the default)"""
+    dd = case.get("defdt")
+    if not dd:
+        return _run_lqr_case(ctx, case, lines, metas)
+    old = torch.get_default_dtype()
+    torch.set_default_dtype(getattr(torch, dd))
+    ctx.count(f"lqr.default-dtype.{dd}")
+    try:
+        return _run_lqr_case(ctx, case, lines, metas)
+    finally:
+        torch.set_default_dtype(old)
+
+
+def sample_items(Bn):
+    """all items of a small batch; first, middle, LAST of a large one"""
+    return list(range(Bn)) if Bn <= 3 else sorted({0, Bn // 2, Bn - 1})
+
+
+def _run_lqr_case(ctx: Ctx, case, lines, metas):
     """runs the whole history of `case` on the real code, applies the oracles, queues model lines"""
     prob = U.build_problem(case)
     Bn, T, ns, nc = case["B"], case["T"], case["ns"], case["nc"]
@@ -786,6 +929,32 @@ def run_lqr_case(ctx: Ctx, case, lines, metas):
                         if why:
                             ctx.fail(case, f"ownership: {tag}: returned {nm} {why}")
                             ok = False
+                if good and o["grad"] == "requires_grad":
+                    # the returned cost carries a usable autograd graph: backward runs, d cost / d x_init is the costate λ_0
+                    # (envelope theorem at the optimum)
+                    try:
+                        if not (cost.requires_grad and u.requires_grad):
+                            raise RuntimeError("outputs do not require grad although x_init does")
+                        cost.sum().backward()
+                        gx = xv.grad.detach().double().numpy()
+                        for b in range(Bn):
+                            refs[b].grad(refs[b].u)
+                            refs[b].grad_scale(refs[b].u)
+                            lam0 = refs[b].lam0
+                            Sd = max(float(np.abs(refs[b].x).max()), float(np.abs(refs[b].u).max()), float(np.abs(refs[b].c).max()),
+                                     0.0 if un is None else float(np.abs(un[b]).max()))
+                            scale = (float(refs[b].lam0_abs.max()) + float(np.abs(refs[b].Q).max()) * Sd + float(np.abs(refs[b].p).max())) \
+                                * max(1.0, min(refs[b].condH, 1e6) ** 0.5)
+                            rtol = 1e-7 if case["dtype"] == "float64" else 1e-2
+                            if not np.isfinite(gx[b]).all() or (np.abs(gx[b] - lam0) > rtol * scale + 1e-300).any():
+                                ctx.fail(case, f"autograd: {tag}: d(cost)/d(x_init) through the returned graph is {gx[b].tolist()}, "
+                                               f"the costate of the optimum is {lam0.tolist()} (item {b})")
+                                ok = False
+                                break
+                    except Exception as e:
+                        ctx.fail(case, f"autograd: {tag}: backward through the returned cost raised {type(e).__name__}: {str(e)[:140]}")
+                        ok = False
+                    ctx.count("lqr.solve.backward")
                 if good and nsolve == 1:
                     ok &= perturb_test(ctx, case, refs, u, tag, ubar=un)
                 tl = [refs[b].tols(None if un is None else un[b], eps) for b in range(Bn)]
@@ -804,14 +973,14 @@ def run_lqr_case(ctx: Ctx, case, lines, metas):
                             ctx.fail(case, f"shape: lqr_backward returned K{tuple(K.shape)} k{tuple(k.shape)} (or non-finite gains)")
                             ok = False
                         else:
-                            for b in range(Bn):
+                            for b in sample_items(Bn):
                                 lines.append(U.lqr_line(case, prob, b, un, dt=1 if not isinstance(case["dt"], int) else case["dt"]))
                                 metas.append((case, b, first[0][b], first[1][b], float(first[2][b]), K[b].detach().double().numpy().copy(),
                                               k[b].detach().double().numpy().copy(), refs[b], tl[b],
                                               None if un is None else un[b]))
                         # MIXED-REGIME BATCH: every item against the same problem solved alone
-                        if case.get("mixed") and Bn > 1 and good:
-                            for b in range(Bn):
+                        if (case.get("mixed") or Bn > 3) and Bn > 1 and good:
+                            for b in sample_items(Bn):
                                 cb, pb = U.item_problem(case, prob, b)
                                 sb = U.make_system(cb, pb)
                                 xb_, ub_, cb_ = U.make_lqr(cb, pb, sb)(x0[b:b + 1].clone(), dt_call, None if un is None else torch.tensor(un[b:b + 1], dtype=dt_t))
@@ -822,6 +991,19 @@ def run_lqr_case(ctx: Ctx, case, lines, metas):
                                                    f"by {du.max():.3e} in u, {dx.max():.3e} in x")
                                     ok = False
                             ctx.count("lqr.mixed-batch")
+                        # HORIZON SPLIT (principle of optimality, theorem `lqr_tail_optimal`): the tail of the returned
+                        # trajectory is what a fresh solve of the tail problem from the returned x_t gives
+                        if case.get("tail") and T >= 2 and good:
+                            ok &= tail_check(ctx, case, prob, refs, first, tl, dt_call, tag)
+                        # EXACT TIE: identical batch items get identical results
+                        if case.get("dup") and Bn > 1 and good:
+                            for b in range(1, Bn):
+                                if not (torch.equal(u[b].detach(), u[0].detach()) and torch.equal(x[b].detach(), x[0].detach())
+                                        and torch.equal(cost[b].detach(), cost[0].detach())):
+                                    ctx.fail(case, f"batch: {tag}: item {b} is a bitwise copy of item 0 but its result differs "
+                                                   f"(u by {float((u[b] - u[0]).detach().abs().max()):.3e})")
+                                    ok = False
+                                    break
                 else:
                     # nominal / history independence, stated directly between two solves
                     for b in range(Bn):
@@ -928,24 +1110,30 @@ def check_mpc_loop(ctx: Ctx, case, rec: Recorder, tag, u_given=False, u_init=Non
 
 def mpc_attrs(mpc):
     st = mpc.stepper
-    return (st.max_steps, st.patience, st.decreasing, st.tol, lqr_attrs(mpc.lqr))
+    return (st.max_steps, getattr(st, "patience", None), getattr(st, "decreasing", None), getattr(st, "tol", None), getattr(st, "k", None),
+            type(st).__name__, lqr_attrs(mpc.lqr))
 
 
 def build_mpc(case, system, Q, p, T):
     """MPC construction through every spelling: explicit stepper (positional / keyword, verbose or not), default stepper
     (`stepper=None` -> ReduceToBason(steps=10)), a second MPC object around the same stepper object"""
     P = U.pp()
+    MPC = U.user_classes()["MyMPC"] if case.get("subclass_mpc") else P.module.MPC
+    if case.get("user_stepper"):
+        # USER SUBCLASS / duck-typed stepper: the loop must follow ITS decisions (exactly k iterations)
+        stepper = U.user_classes()[case["user_stepper"]](case["user_k"])
+        return MPC(system, Q, p, T, stepper=stepper), stepper, None
     if case.get("default_stepper"):
-        mpc = P.module.MPC(system, Q, p, T) if case["data_seed"] % 2 else P.module.MPC(system, Q, p, T, stepper=None)
+        mpc = MPC(system, Q, p, T) if case["data_seed"] % 2 else MPC(system, Q, p, T, stepper=None)
         return mpc, mpc.stepper, case["steps"]
     stepper = P.utils.ReduceToBason(case["steps"], case["patience"], case["decreasing"], case["tol"], bool(case.get("verbose"))) \
         if case["data_seed"] % 3 == 0 else \
         P.utils.ReduceToBason(steps=case["steps"], patience=case["patience"], decreasing=case["decreasing"], tol=case["tol"],
                               verbose=bool(case.get("verbose")))
-    mpc = P.module.MPC(system, Q, p, T, stepper) if case["data_seed"] % 2 else P.module.MPC(system=system, Q=Q, p=p, T=T, stepper=stepper)
+    mpc = MPC(system, Q, p, T, stepper) if case["data_seed"] % 2 else MPC(system=system, Q=Q, p=p, T=T, stepper=stepper)
     steps_eff = case["steps"]
     if case.get("shared_stepper"):             # a second MPC object built around the same stepper object
-        mpc = P.module.MPC(system, Q, p, T, stepper=stepper)
+        mpc = MPC(system, Q, p, T, stepper=stepper)
         steps_eff -= 1
     return mpc, stepper, steps_eff
 
@@ -953,6 +1141,11 @@ def build_mpc(case, system, Q, p, T):
 def check_mpc_constructor(ctx: Ctx, case, mpc, stepper, steps_eff):
     """what the constructor documents: the stepper given (or ReduceToBason with 10 steps, patience 5, decreasing 1e-3,
     tol 1e-5 when none is given), one step of its budget reserved for the final solve"""
+    if case.get("user_stepper"):
+        if mpc.stepper is not stepper or mpc.stepper.max_steps != 10 ** 6 - 1:
+            ctx.fail(case, f"constructor: MPC(user stepper {case['user_stepper']}) does not hold the user's stepper with one step taken off its budget")
+            return False
+        return True
     want = (steps_eff - 1, case["patience"], case["decreasing"], case["tol"])
     got = (mpc.stepper.max_steps, mpc.stepper.patience, mpc.stepper.decreasing, mpc.stepper.tol)
     if mpc.stepper is not stepper or got != want:
@@ -1008,7 +1201,11 @@ def mpc_call(ctx: Ctx, case, mpc, system, x0t, uin, uview, tag, steps_eff, kept:
         ok = False
     ok &= check_mpc_loop(ctx, case, rec, tag, u_given=True, u_init=None if ut is None else ut.detach().clone())
     costs = [float(c[2].reshape(-1)[0]) for c in rec.calls[:-1]]
-    if costs:
+    if costs and case.get("user_stepper"):
+        if len(costs) != case["user_k"]:
+            ctx.fail(case, f"mpc-loop: {tag}: the loop ran {len(costs)} iterations, the user's stepper ({case['user_stepper']}) stops after exactly {case['user_k']}")
+            ok = False
+    elif costs:
         stop_at, pc_exp, frag = U.expected_iterations(costs, steps_eff, case["patience"], case["decreasing"], case["tol"])
         if not frag and stop_at != len(costs) - 1:
             ctx.fail(case, f"mpc-loop: {tag}: the loop ran {len(costs)} iterations; by the stepper's documented rules (budget {steps_eff} - 1, "
@@ -1066,14 +1263,15 @@ def run_mpc_linear(ctx: Ctx, case, lines, metas):
             refs = [U.make_ref(pcall, 0, T)]
             x0t = torch.tensor(pcall["x0"])
             uin = U.nominal(case, prob, case["uinit"] if call == 0 else [None, ["rand", 1.0, 10 + call], ["rand", 50.0, 20 + call]][call % 3])
-            pc0 = int(stepper.patience_count)
+            pc0 = int(getattr(stepper, "patience_count", 0))
             tag = f"MPC call #{call + 1} on a linear system"
             style, grad = STYLES[(case["data_seed"] + call) % len(STYLES)], ["plain", "requires_grad", "no_grad"][(case["data_seed"] // 7 + call) % 3]
             if twin is not None:
                 # the copy solves first, is then disturbed; the original must be unaffected (own stepper, own system, own clock)
                 g2, x2, u2, c2_, _, _ = mpc_call(ctx, case, twin, twin.lqr.system, x0t, uin, "contig", tag + " (deep copy)", steps_eff, Kept())
                 ok &= g2 and check_solution(ctx, case, pcall, refs, x2, u2, c2_, tag + " (deep copy)", ubar=uin)
-                twin.stepper.patience_count = 99
+                if hasattr(twin.stepper, "patience_count"):
+                    twin.stepper.patience_count = 99
                 twin.lqr.system.systime = 4 if not prob["tv"] else 0
                 dict(twin.lqr.system.named_buffers())["_B"].mul_(3.0)
                 twin = None
@@ -1082,11 +1280,12 @@ def run_mpc_linear(ctx: Ctx, case, lines, metas):
             ok &= good
             ok &= check_solution(ctx, case, pcall, refs, x, u, cost, tag, ubar=uin)
             nums, L = U.linear_nums(case, pcall, 0, uin)
-            meta = (case, call, len(rec.calls) - 1, int(stepper.patience_count), x[0].detach().double().numpy(), u[0].detach().double().numpy(),
+            meta = (case, call, len(rec.calls) - 1, int(getattr(stepper, "patience_count", 0)), x[0].detach().double().numpy(), u[0].detach().double().numpy(),
                     float(cost[0].detach()), (refs[0], refs[0].tols(None if uin is None else uin[0])), None, int(mpc.stepper.max_steps))
             line = U.mpc_line(case, nums, L, uin is not None, steps_eff, case["patience"], pc0, case["decreasing"], case["tol"])
-            lines.append(line)
-            metas.append(meta)
+            if not case.get("user_stepper"):        # (a user's stepper has no model; the oracles above decide)
+                lines.append(line)
+                metas.append(meta)
             ctx.count("mpc.linear.call")
             if call + 1 < case["calls"]:
                 # an LQR solve on the same system object between two MPC calls, clock left dirty
@@ -1234,7 +1433,7 @@ def run_mpc_nls(ctx: Ctx, case, lines, metas):
                     ok = False
                 ctx.count(f"mpc.event.fail.{'raised' if raised else 'completed'}")
             twin = try_deepcopy(mpc, ctx) if "deepcopy" in ev else None
-            pc0 = int(stepper.patience_count)
+            pc0 = int(getattr(stepper, "patience_count", 0))
             system.reset(call * 5)
             style, grad = STYLES[(case["data_seed"] + call) % len(STYLES)], ["plain", "requires_grad", "no_grad"][(case["data_seed"] // 7 + call) % 3]
             good, x, u, cost, rec, costs = mpc_call(ctx, case, mpc, system, mk(spc["x0"]), uin, ["contig", "noncontig", "transposed"][call % 3],
@@ -1262,12 +1461,13 @@ def run_mpc_nls(ctx: Ctx, case, lines, metas):
                 return xx[0].double().numpy(), uu[0].double().numpy()
             sens = nls_sensitivity(case, spc, one_mpc)
             fin = rec.calls[-1][0] if rec.calls else None
-            meta = (case, call, len(rec.calls) - 1, int(stepper.patience_count), x[0].detach().double().numpy(), u[0].detach().double().numpy(),
+            meta = (case, call, len(rec.calls) - 1, int(getattr(stepper, "patience_count", 0)), x[0].detach().double().numpy(), u[0].detach().double().numpy(),
                     float(cost[0].detach()), sens, (costs, spc, None if fin is None else fin[0].detach().double().numpy()), int(mpc.stepper.max_steps))
             line = U.mpc_line(case, U.sin_nums(case, spc, None if uin is None else uin[0]), 0, uin is not None,
                               steps_eff, case["patience"], pc0, case["decreasing"], case["tol"])
-            lines.append(line)
-            metas.append(meta)
+            if not case.get("user_stepper"):
+                lines.append(line)
+                metas.append(meta)
             ctx.count("mpc.nls.call")
             ctx.count(f"mpc.nls.iterations.{len(rec.calls) - 1}")
             if call + 1 < case["calls"]:
@@ -1396,6 +1596,17 @@ def stepper_corpus():
                         losses.append(losses[-1] / (1 + r))      # (last - loss)/loss == r
                     for steps in (len(losses) - 1, len(losses) + 5):
                         out.append((steps, pat, 0, dec, -1e9, losses))
+    # EXACT TIES: loss == last (ratio exactly 0 against decreasing 0 / >0 / <0), loss == tol exactly, ratio == decreasing exactly
+    # (0.5: last = 1.5 loss), patience reached exactly at the budget, patience 0
+    for dec in (0.0, 1e-3, -1e-3, 0.5):
+        for base in (2.0, -3.0, 0.0):
+            out.append((9, 2, 0, dec, -1e9, [base, base, base, base]))
+    for base in (2.0, -4.0):
+        out.append((9, 2, 0, 0.5, -1e9, [1.5 * 1.5 * base, 1.5 * base, base]))
+    for tol in (1e-5, 1.0, -5.0, 0.0):
+        out.append((9, 5, 0, 1e-3, tol, [tol, tol + 1.0]))
+    for pat in (0, 1, 3):
+        out.append((3, pat, 0, 1e-3, -1e9, [5.0, 5.0, 5.0, 5.0]))
     for tol in (1e-5, 1.0, -5.0):
         for delta in (-1e-3, 1e-3):
             for steps in (1, 9):
@@ -1414,7 +1625,7 @@ def run_stepper(ctx: Ctx, n):
             m = len(losses)
         else:
             steps, pat, pc0 = rng.choice([0, 1, 2, 3, 5, 9]), rng.choice([1, 2, 3, 5]), rng.choice([0, 0, 1, 4, 7])
-            dec, tol = rng.choice([1e-3, 0.5, 1e-9]), rng.choice([1e-5, 1.0, -5.0])
+            dec, tol = rng.choice([1e-3, 0.5, 1e-9, -1e-3, 0.0]), rng.choice([1e-5, 1.0, -5.0, 0.0])
             m = rng.randint(1, 10)
             base = rng.choice([-3.0, 0.5, 2.0, 100.0])
             losses = []
@@ -1457,6 +1668,25 @@ def run_stepper(ctx: Ctx, n):
 
 
 # ----------------------------------------------------------------------------- run / search / replay
+
+def run_mode_order(ctx: Ctx):
+    """MODE-POISONED CACHES: for keys (sizes, dtype) that nothing in this process has used yet, the FIRST solve runs under
+    inference_mode (resp. no_grad), the next one with operands that require grad (with backward), then a plain one"""
+    import random
+    combos = [(2, 3, n, n, "float64") for n in (1, 2, 3, 4, 5, 6)] + [(1, 4, 2, 3, "float32"), (3, 2, 3, 1, "float32"), (1, 7, 1, 2, "float64"),
+                                                                     (2, 5, 4, 2, "float64"), (3, 1, 2, 2, "float32"), (1, 9, 3, 3, "float32")]
+    for k2, (Bn, T, ns, nc, dty) in enumerate(combos):
+        c = gen_lqr_case(random.Random(4000 + k2), small=(Bn, T, ns, nc))
+        c.update(sys=("lti", "ltv", "lti_shared", "ltvc")[k2 % 4], dtype=dty, c1="rand", mixed=False, dup=False, condQ=10, qscale=1, pscale=1, x0scale=1,
+                 cscale=1, bscale=1, rho=0.9, astyle="rand", bstyle="full", dt=1, tail=False, qstyle=None, signpat=None, subclass=None, defdt=None)
+        first_mode = "inference" if k2 % 2 == 0 else "no_grad"
+        c["ops"] = [["solve", "none", {"grad": first_mode}], ["solve", ["rand", 1.0, 1], {"grad": "requires_grad"}], ["solve", "zeros", {}],
+                    ["solve", "prev", {"grad": "requires_grad"}]]
+        c["modeorder"] = True
+        ctx.note_case(sig_of(c) + ("modeorder",), True)
+        run_lqr_case(ctx, c, [], [])
+        ctx.count("modeorder.case")
+
 
 def run_interleaved(ctx: Ctx, order_seed: int):
     """MODULE-LEVEL STATE: objects of different dtype / system kind / size used alternately in one process, in several
@@ -1521,6 +1751,7 @@ def run(ctx: Ctx):
     for c in cases:
         c["corpus"] = True
     ctx.count("corpus.cases", len(cases))
+    run_mode_order(ctx)          # must come first: its shape / dtype keys have to be fresh in the process
     run_interleaved(ctx, 0)
     run_interleaved(ctx, 1 + ctx.seed)
     if os.environ.get("C14_ONLY_CORPUS"):      # rehearsal aid: what does the seed-independent part catch on its own?
@@ -1533,6 +1764,8 @@ def run(ctx: Ctx):
         cases.append(gen_lqr_case(rng, small=sh))
     for _ in range(ctx.pick(70, 2000)):
         cases.append(gen_lqr_case(rng, big=True))
+    for _ in range(ctx.pick(6, 150)):
+        cases.append(gen_big_case(rng))
     for _ in range(ctx.pick(16, 300)):
         cases.append(gen_mpc_linear_case(rng, big=not ctx.quick))
     for _ in range(ctx.pick(14, 400)):
